@@ -183,6 +183,13 @@ class Recorder(object):
         else:
             sim.apply(ev)
             mev = ev
+        if (not self.cut and k == 'tick' and self.cfg.get('dyn') and not self.cfg.get('use_batch', True)
+                and getattr(sim, 'jumped', 0) and sim.step_nid in sim.nodes and sim.tr(sim.step_nid).tlog):
+            # unbatched mode sends inside _checkCommandsToApply, after a membership entry of the same tick has changed the
+            # member set; when that send loop is then cut by the clock, how many messages went out depends on the
+            # iteration order of the NEW set, which is not among the recorded oracle inputs (it is read once per tick):
+            # the trace is model-checked up to the previous step, the rest runs under the monitors only
+            self.cut = True
         if not self.cut:
             self.mevents.append(mev)
             st, ou = sim.observe()
